@@ -290,6 +290,15 @@ def has_symbolic(e):
     return any(isinstance(x, list) and has_symbolic(x) for x in e[1:])
 
 
+def known_shape(case):
+    """shapes of the two recorded generic-layout findings (see known_findings.json)"""
+    if case["layout"] == "generic" and "'SUB'" in repr(case["ops"]):
+        return ["generic-negative-offset"]
+    if case["layout"] == "generic" and any(m_ in repr(case["ops"]) for m_ in ("['c', 3]]", "['c', 1]]")) and "'AND'" in repr(case["ops"]):
+        return ["generic-narrow-mask-index"]
+    return []
+
+
 def run_case(case, acc=None):
     world = build_world(case)
     rng = random.Random(case.get("seed", 0))
@@ -300,11 +309,7 @@ def run_case(case, acc=None):
             words = [rng.choice([0, 1, 2, 3, 2000, 40000, 65530]) for _ in range(gen.NW)]
             inputs.append({"cd": b"".join(w.to_bytes(32, "big") for w in words).hex(), "caller": rng.choice([0, 1, 2, 3]), "origin": 1, "value": 0, "bal": {}})
     r = diff.check_world(world, inputs, args(case["layout"]), opts={"probe_storage": False}, guided=not case.get("inputs"))
-    pre = []
-    if case["layout"] == "generic" and "'SUB'" in repr(case["ops"]):
-        pre = ["generic-negative-offset"]  # see known_findings.json
-    elif case["layout"] == "generic" and any(m_ in repr(case["ops"]) for m_ in ("['c', 3]]", "['c', 1]]")) and "'AND'" in repr(case["ops"]):
-        pre = ["generic-narrow-mask-index"]  # see known_findings.json
+    pre = known_shape(case)
     fails = [(pre + [case["layout"], "transient" if case["transient"] else "persistent"] + b, d) for b, d in r["fails"]]
     if acc is not None:
         if r.get("crash"):
@@ -482,6 +487,10 @@ def run_symbolic_storage(case, acc=None):
                     break
         if fails:
             break
+    pre = known_shape(case)
+    if pre:
+        # same root causes as in the concrete-storage mode: filed under the same signatures
+        fails = [(pre + [case["layout"]] + b, d) for b, d in fails]
     if acc is not None:
         nst = sum(1 for o in case["ops"] if o[0] == "store")
         acc.case(dict(case, symst=True), nst >= 1 and len(exs) > 0, klass=["symbolic-storage", case["layout"]])
